@@ -49,6 +49,10 @@ def run(ctx):
     for i in range(n):
         ip = rng.choice([RDF_TYPE, RDF_TYPE, EX + 'inst'])
         g = gen.gen_graph(rng, inst_prop=ip) if rng.random() < 0.7 else gen.gen_schema_graph(rng, inst_prop=ip)
+        if rng.random() < 0.25:
+            # percent-encoded local names (DBpedia style): '%' is also sheXer's internal shape-name marker
+            ren = lambda t: ('I', t[1].replace(EX + 'C1', EX + 'Caf%C3%A9').replace(EX + 'C0', EX + '100%25_C')) if t[0] == 'I' else t
+            g = [(ren(s_), p_, ren(o_)) for s_, p_, o_ in g]
         cfg = gen.gen_cfg(rng, g, inst_prop=ip, presentation=False)
         cfg['report'] = 'mixed'
         cfg['disable_comments'] = False
